@@ -1,6 +1,8 @@
 import TemplVerif.Drive.Common
 import TemplVerif.Drive.AstParse
 import TemplVerif.Model.Norm
+import TemplVerif.Model.Printer
+import TemplVerif.Model.Reparse
 namespace TemplVerif.Drive.C0809
 open TemplVerif TemplVerif.Drive
 
@@ -25,6 +27,31 @@ def handleC09 : List String → Verdict
         { predfail := if f1 == f2 then none else some s!"formatting is not idempotent: {firstDiff f1 f2}",
           nontrivial := true, tags := [origin], sig := "fmt;idempotence" }
       | _, _ => .badOp
+  | ["prt", origin, _srcH, a0S, a1S, textsS] =>
+    -- the printer model on the real parser's tree of x against what the real formatter wrote, and the re-parse
+    -- specification against the real parser's tree of the formatted text
+    match (a0S.splitOn "|").mapM AstParse.body, (a1S.splitOn "|").mapM AstParse.body, (textsS.splitOn "|").mapM hexField with
+    | some t0, some t1, some texts =>
+      let wsNorm := fun (t : Ast.Nodes) => AstParse.mapWs t
+      let rows := (List.zip t0 (List.zip t1 texts)).map fun p =>
+        if Printer.nodesInFragment p.1 then
+          (if Printer.body p.1 != p.2.2 then 1
+           else if !decide (wsNorm (Reparse.body p.1) = wsNorm p.2.1) then 3
+           else if !Reparse.wfNodes p.1 then 4
+           else if Printer.body (Reparse.body p.1) != Printer.body p.1 then 5 else 0, (p.1, p.2.2)) else (2, (p.1, p.2.2))
+      let bad := rows.find? (·.1 == 1)
+      let badR := rows.findIdx? (·.1 == 3)
+      { mismatch := match bad with
+          | some r => some s!"printer model differs from the real formatter: {firstDiff r.2.2 (Printer.body r.2.1)} (real vs model)"
+          | none => match badR with
+            | some i => some s!"template #{i}: the re-parse specification differs from the real parser's tree of the formatted text"
+            | none => match rows.findIdx? (·.1 == 4) with
+              | some i => some s!"template #{i}: the parser built a tree that violates the invariant the idempotence theorem assumes (whitespace node after a trailing-space node, or a line break after a child kept on its parent's line)"
+              | none => (rows.findIdx? (·.1 == 5)).map fun i => s!"template #{i}: printing the re-parsed tree differs from printing the tree (the theorem C09_print_reparse fails on this tree)",
+        nontrivial := rows.any (·.1 == 0),
+        tags := [origin, "prt", if rows.all (·.1 == 2) then "outside-fragment" else if rows.all (·.1 != 2) then "all-in-fragment" else "some-in-fragment"],
+        sig := "prt" }
+    | _, _, _ => .badOp
   | _ => .badOp
 
 def wsMarker : Bytes := Bytes.ofString "templruntime.WriteString(templ_7745c5c3_Buffer, "
